@@ -412,8 +412,14 @@ def r175(ctx):
     dec = None
     for n in initiate.body:
         if isinstance(n, ast.If) and any(isinstance(x, ast.Return) and isinstance(x.value, ast.Constant) and x.value.value is False for x in n.body):
-            r = _offset(_halfspace(n.test), {"c": 1, "T": -1})
+            hs_ = _halfspace(n.test)
+            r = _offset(hs_, {"c": 1, "T": -1})
             r_node = n
+            if r is None and hs_ is not None and hs_.get("c") == 1 and hs_.get("T") == -1 and hs_.get("W", 0) != 0 and set(hs_) <= {"c", "T", "W", 1}:
+                # the refusal depends on the number of workers: refuse iff cstep + w*workers >= tsteps - k
+                w_ = hs_.get("W", 0)
+                ctx.bad(rid, n, f"initiate() refuses to start workers iff cstep + ({w_})*workers >= tsteps + ({-hs_.get(1, 0)}): " + ("when no more steps than that remain, no job is ever started - loop() still counts the step counter up to tsteps with nothing to wait for, so restart.toml claims a finished run although fewer moves than requested (possibly none) were completed" if w_ > 0 else "jobs are started although no step remains"), construct="initiate refusal bound " + short(n.test, 50))
+                r = 0  # reported; go on with the other comparators
         if isinstance(n, ast.AugAssign) and isinstance(n.target, ast.Attribute) and n.target.attr == "toinitiate":
             dec = n
         if isinstance(n, ast.Return) and isinstance(n.value, ast.Compare):
@@ -553,6 +559,7 @@ VARIANTS = [
     B("c17-loop-return-strict", REPEX, "        return self.cstep <= self.tsteps\n", "        return self.cstep < self.tsteps\n", "R-17.5"),
     B("c17-loop-exit-late", REPEX, "        if self.cstep >= self.tsteps:\n            # should probably", "        if self.cstep > self.tsteps:\n            # should probably", "R-17.5", also=[(REPEX, "        return self.cstep <= self.tsteps\n", "        return self.cstep <= self.tsteps + 1\n")]),
     B("c17-initiate-count-strict", REPEX, "        return self.toinitiate >= 0\n", "        return self.toinitiate > 0\n", "R-17.5"),
+    B("c17-initiate-refusal-counts-workers", REPEX, "        if not self.cstep < self.tsteps:\n            return False", "        if not self.cstep + self.workers < self.tsteps:\n            return False", "R-17.5", why="seeded C17_h"),
     B("c17-initiate-refusal-loose", REPEX, "        if not self.cstep < self.tsteps:\n            return False", "        if not self.cstep <= self.tsteps:\n            return False", "R-17.5"),
     K("c17-keep-submit-guard-flipped", SCHED, "        if state.cstep + state.workers <= state.tsteps:", "        if state.tsteps >= state.workers + state.cstep:"),
     K("c17-keep-submit-guard-strict-plus-one", SCHED, "        if state.cstep + state.workers <= state.tsteps:", "        if state.cstep + state.workers < state.tsteps + 1:"),
